@@ -22,6 +22,9 @@ pub struct FileEntry {
     pub content: String,
     /// What the generator meant this file to be (informational): lp1, lp2, lp3, spec, ug, po, junk.
     pub meant: String,
+    /// A symbolic link to this other scenario file instead of a regular file (only ever under a name without a role).
+    #[serde(default)]
+    pub link_to: Option<String>,
 }
 
 #[derive(Clone, Debug, Serialize, Deserialize)]
@@ -337,12 +340,12 @@ pub fn draw(seed: u64, i: u64, tasks: &[Task], thorough: bool) -> Scenario {
             if !junk || rng.pct(50) {
                 args.push(name.clone());
             }
-            files.push(FileEntry { path: name, content, meant });
+            files.push(FileEntry { path: name, content, meant, link_to: None });
         } else {
             let d = &dirs[choice - 1];
             dir_used[choice - 1] = true;
             let sub = if rng.pct(25) { format!("{d}/{}{}sub", if rng.pct(15) { "." } else { "" }, (b'a' + rng.below(26) as u8) as char) } else { d.clone() };
-            files.push(FileEntry { path: format!("{sub}/{name}"), content, meant });
+            files.push(FileEntry { path: format!("{sub}/{name}"), content, meant, link_to: None });
         }
     }
     // two role files may carry the same file name when they live in different directories
@@ -426,7 +429,73 @@ pub fn draw(seed: u64, i: u64, tasks: &[Task], thorough: bool) -> Scenario {
             interleaved.push((rng.below(args.len() as u64 + 1) as usize, flag.to_string()));
         }
     }
-    Scenario { task_id: task.id.clone(), equivalence, options, files, creation_order, args, marked, out_rel, interleaved }
+    let mut s = Scenario { task_id: task.id.clone(), equivalence, options, files, creation_order, args, marked, out_rel, interleaved };
+    decorate(&mut s, &mut Rng::new(mix2(seed ^ 0xc20a, i)));
+    s
+}
+
+/// Later additions to the layout generator, drawn from a stream of their own so that scenario i of a seed keeps the
+/// layout it always had and is only decorated.
+fn decorate(s: &mut Scenario, rng: &mut Rng) {
+    let root_only = s.args.len() == 1 && norm(&s.args[0]).is_empty();
+    // (1) sibling directories (or a file and a directory) whose names extend each other by a character that sorts
+    // below '/': per directory level `v1` comes before `v1.1` and `choice` before `choice.lp`, as full paths it is
+    // the other way round. "Inside a directory, in file-name order" is read per level (the anchored mechanism).
+    let lp = |s: &Scenario, m: &str| s.files.iter().position(|f| f.meant == m && f.link_to.is_none());
+    if let (Some(i1), Some(i2), true) = (lp(s, "lp1"), lp(s, "lp2"), rng.pct(7)) {
+        let d: String = format!("{}nest", (b'a' + rng.below(26) as u8) as char);
+        let st: String = (0..1 + rng.below(3)).map(|_| (b'a' + rng.below(26) as u8) as char).collect();
+        let taken = s.files.iter().any(|f| f.path == d || f.path.starts_with(&format!("{d}/"))) || s.out_rel.as_deref().map(norm).as_deref() == Some(d.as_str());
+        if !taken {
+            let base = |p: &str| p.rsplit('/').next().unwrap().to_string();
+            let (old1, old2) = (s.files[i1].path.clone(), s.files[i2].path.clone());
+            let (b1, b2) = (base(&old1), base(&old2));
+            let (first, second) = if rng.pct(50) { (i1, i2) } else { (i2, i1) };
+            let (bf, bs) = if first == i1 { (b1, b2) } else { (b2, b1) };
+            if rng.pct(60) {
+                let ext = rng.pick(&[".1", "-old", "+x", ",v", " copy", ".lp"]);
+                s.files[first].path = format!("{d}/{st}/{bf}");
+                s.files[second].path = format!("{d}/{st}{ext}/{bs}");
+            } else {
+                // a directory `st` and a file `st.lp` side by side
+                s.files[first].path = format!("{d}/{st}/{bf}");
+                s.files[second].path = format!("{d}/{st}.lp");
+            }
+            if !root_only {
+                s.args.retain(|a| { let n = norm(a); n != old1 && n != old2 });
+                // a directory that has lost its last file does not exist any more
+                let files = s.files.clone();
+                s.args.retain(|a| { let n = norm(a); files.iter().any(|f| f.path == n || f.path.starts_with(&format!("{n}/"))) });
+                let at = rng.below(s.args.len() as u64 + 1) as usize;
+                s.args.insert(at, if rng.pct(30) { format!("./{d}/") } else { d.clone() });
+                s.interleaved.iter_mut().for_each(|(pos, _)| *pos = (*pos).min(s.args.len()));
+            }
+        }
+    }
+    // (2) symbolic links under names without a role that point at role files: a link called `0-notes.txt` is not a
+    // program, whatever it points to
+    if rng.pct(12) {
+        let targets: Vec<String> = s.files.iter().filter(|f| f.meant != "junk" && f.link_to.is_none()).map(|f| f.path.clone()).collect();
+        if !targets.is_empty() {
+            for _ in 0..1 + rng.below(2) {
+                let name = rng.pick(&["0-notes.txt", "0link", "alias.bak", "zz-link.lpx", "Link.txt", "a.lp~"]).to_string();
+                let target = rng.pick(&targets).clone();
+                // next to the target's top-level directory or at top level
+                let dirs: Vec<String> = s.files.iter().filter_map(|f| f.path.rfind('/').map(|k| f.path[..k].to_string())).collect();
+                let path = if !dirs.is_empty() && rng.pct(50) { format!("{}/{name}", rng.pick(&dirs)) } else { name.clone() };
+                if s.files.iter().any(|f| f.path == path || f.path.starts_with(&format!("{path}/"))) || s.out_rel.as_deref().map(norm).as_deref() == Some(path.as_str()) {
+                    continue;
+                }
+                let top = !path.contains('/');
+                s.files.push(FileEntry { path: path.clone(), content: String::new(), meant: "junk".into(), link_to: Some(target) });
+                s.creation_order.push(s.files.len() - 1);
+                if top && !root_only && rng.pct(70) {
+                    let at = rng.below(s.args.len() as u64 + 1) as usize;
+                    s.args.insert(at, path);
+                }
+            }
+        }
+    }
 }
 
 fn materialise(s: &Scenario, root: &Path, reverse: bool) {
@@ -437,7 +506,10 @@ fn materialise(s: &Scenario, root: &Path, reverse: bool) {
         if let Some(parent) = p.parent() {
             let _ = fs::create_dir_all(parent);
         }
-        fs::write(p, &f.content).expect("write scenario file");
+        match &f.link_to {
+            Some(target) => std::os::unix::fs::symlink(root.join(target), p).expect("create scenario symlink"),
+            None => fs::write(p, &f.content).expect("write scenario file"),
+        }
     }
 }
 
@@ -446,7 +518,15 @@ pub struct Out {
     pub ok: bool,
     pub files: Vec<(String, Vec<u8>)>,
     pub stderr: String,
+    /// Injected input faults that actually fired in this run (from the interposer's own log).
+    pub io_faults: u64,
 }
+
+pub static IO_FAULT_RUNS: AtomicU64 = AtomicU64::new(0);
+pub static IO_FAULTS_FIRED: AtomicU64 = AtomicU64::new(0);
+pub static IO_FAULT_FAILED_CLEANLY: AtomicU64 = AtomicU64::new(0);
+pub static IO_FAULT_SAME_OUTPUT: AtomicU64 = AtomicU64::new(0);
+pub static SHORT_READ_RUNS: AtomicU64 = AtomicU64::new(0);
 
 fn verify(bins: &Binaries, options: &[String], file_args: &[String], cwd: &Path, out: &Path, env: &Env) -> Out {
     verify_out(bins, options, file_args, cwd, out, None, env)
@@ -459,8 +539,24 @@ fn verify_out(bins: &Binaries, options: &[String], file_args: &[String], cwd: &P
     args.push("--save-problems".into());
     args.push(out_arg.map(str::to_string).unwrap_or_else(|| out.to_string_lossy().into_owned()));
     args.extend(file_args.iter().cloned());
-    let po = e2::run_anthem(bins, &args, cwd, None, env, &[], 120).unwrap_or_else(|e| harness_error(&format!("cannot run anthem: {e}")));
-    Out { ok: po.code == Some(0), files: read_dir_files(out), stderr: String::from_utf8_lossy(&po.stderr).into_owned() }
+    let mut extra = vec![];
+    let iolog = PathBuf::from(format!("{}.iolog", out.display()));
+    if env.io_fail.is_some() {
+        extra.push(("VERIF_ENV_LOG".to_string(), iolog.to_string_lossy().into_owned()));
+    }
+    let po = e2::run_anthem(bins, &args, cwd, None, env, &extra, 120).unwrap_or_else(|e| harness_error(&format!("cannot run anthem: {e}")));
+    let mut io_faults = 0;
+    if env.io_fail.is_some() {
+        if let Ok(text) = fs::read_to_string(&iolog) {
+            for kv in text.split_whitespace() {
+                if let Some(v) = kv.strip_prefix("iofaults=") {
+                    io_faults += v.parse::<u64>().unwrap_or(0);
+                }
+            }
+        }
+        let _ = fs::remove_file(&iolog);
+    }
+    Out { ok: po.code == Some(0), files: read_dir_files(out), stderr: String::from_utf8_lossy(&po.stderr).into_owned(), io_faults }
 }
 
 #[derive(Clone, Debug, Serialize, Deserialize)]
@@ -481,6 +577,14 @@ pub fn check_once(bins: &Binaries, s: &Scenario, env: &Env, reverse_creation: bo
     let mut runs = 0;
     let root = scratch.lock().unwrap().fresh_dir("lay");
     materialise(s, &root, reverse_creation);
+    let mut env = env.clone();
+    env.io_prefixes = vec![root.to_string_lossy().into_owned()];
+    let env = &env;
+    if env.io_fail.is_some() {
+        IO_FAULT_RUNS.fetch_add(1, Ordering::Relaxed);
+    } else if env.read_max.is_some() || env.read_eintr_every.is_some() {
+        SHORT_READ_RUNS.fetch_add(1, Ordering::Relaxed);
+    }
     // the layout invocation: moved flags sit between the files
     let moved: Vec<&String> = s.interleaved.iter().map(|(_, f)| f).collect();
     let layout_options: Vec<String> = s.options.iter().filter(|o| !moved.contains(o)).cloned().collect();
@@ -507,7 +611,18 @@ pub fn check_once(bins: &Binaries, s: &Scenario, env: &Env, reverse_creation: bo
     let roles = model(s);
     let canon = canonical_files(s, &roles);
     let mut verdict = None;
+    // an injected input fault that fired: anthem may fail (any message), it may never succeed with other output
+    let excused = got.io_faults > 0 && !got.ok;
+    if got.io_faults > 0 {
+        IO_FAULTS_FIRED.fetch_add(got.io_faults, Ordering::Relaxed);
+        if excused {
+            IO_FAULT_FAILED_CLEANLY.fetch_add(1, Ordering::Relaxed);
+        } else {
+            IO_FAULT_SAME_OUTPUT.fetch_add(1, Ordering::Relaxed);
+        }
+    }
     match canon {
+        _ if excused => {}
         None => {
             if got.ok || !got.files.is_empty() {
                 verdict = Some(("role-missing-accepted".to_string(), format!("the reference model finds no file for a required role (roles: {roles:?}) but anthem exited successfully with {} problem file(s)", got.files.len())));
@@ -551,7 +666,7 @@ pub fn check_once(bins: &Binaries, s: &Scenario, env: &Env, reverse_creation: bo
             let single_direction = s.options.windows(2).any(|w| w[0] == "--direction" && w[1] != "universal") || s.options.iter().any(|o| o.starts_with("--direction=") && o != "--direction=universal");
             // ... unless the outline has an entry without a direction annotation, which counts in every direction
             let unannotated = cfiles.iter().find(|f| f.0 == "c.po").map(|f| f.1.lines().any(|l| { let l = l.trim_start(); l.starts_with("lemma:") || l.starts_with("inductive-lemma:") })).unwrap_or(false);
-            if verdict.is_none() && want.ok && cfiles.iter().any(|f| f.0 == "c.po") && s.equivalence == "external" && (!single_direction || unannotated) {
+            if verdict.is_none() && env.io_fail.is_none() && want.ok && cfiles.iter().any(|f| f.0 == "c.po") && s.equivalence == "external" && (!single_direction || unannotated) {
                 let cout2 = scratch.lock().unwrap().fresh_dir("out");
                 let names_no_po: Vec<String> = names.iter().filter(|n| *n != "c.po").cloned().collect();
                 let without = verify(bins, &s.options, &names_no_po, &cdir, &cout2, &Env::plain());
@@ -564,6 +679,9 @@ pub fn check_once(bins: &Binaries, s: &Scenario, env: &Env, reverse_creation: bo
             let _ = fs::remove_dir_all(cdir);
             let _ = fs::remove_dir_all(cout);
         }
+    }
+    if let (Some(v), Some((k, e))) = (verdict.as_mut(), env.io_fail) {
+        v.1 = format!("[input operation #{k} failed with errno {e}: anthem may fail, but it exited successfully] {}", v.1);
     }
     let _ = fs::remove_dir_all(root);
     let _ = fs::remove_dir_all(out);
@@ -710,6 +828,27 @@ pub fn check_swap(bins: &Binaries, s: &Scenario, scratch: &Mutex<Scratch>) -> (O
 
 fn envs_for(seed: u64, i: u64, thorough: bool, has_dir: bool) -> Vec<(Env, bool)> {
     let mut v = vec![(Env::plain(), false)];
+    // input faults (every scenario): short reads and EINTR must not matter at all; a failing open/stat/opendir/read/
+    // readdir on an input object may make anthem fail, never succeed with different problems
+    {
+        let mut rng = Rng::new(mix2(seed ^ 0x10fa, i));
+        let mut benign = Env::plain();
+        benign.preload = true;
+        benign.read_max = Some(*rng.pick(&[1u64, 3, 16, 100]));
+        benign.read_eintr_every = if rng.pct(60) { Some(*rng.pick(&[2u64, 3, 5])) } else { None };
+        v.push((benign, false));
+        for _ in 0..if thorough { 5 } else { 2 } {
+            let mut e = Env::plain();
+            e.preload = true;
+            let k = if rng.pct(75) { 1 + rng.below(14) } else { 1 + rng.below(80) };
+            e.io_fail = Some((k, *rng.pick(&[5u32, 5, 13, 2, 24, 12, 4, 116])));
+            if has_dir && rng.pct(50) {
+                e.dir_mode = rng.pick(&["sorted", "reverse", "shuffle"]).to_string();
+                e.dir_seed = rng.next();
+            }
+            v.push((e, false));
+        }
+    }
     if !has_dir {
         return v;
     }
@@ -747,6 +886,8 @@ struct Tally {
     root_arg: u64,
     spelled: u64,
     out_rel: u64,
+    symlinks: u64,
+    prefix_nest: u64,
     dir_modes: BTreeMap<String, u64>,
     by_equivalence: BTreeMap<String, u64>,
     distinct: BTreeSet<String>,
@@ -818,10 +959,16 @@ pub fn main(args: &Args) {
             if s.out_rel.is_some() {
                 local.out_rel += 1;
             }
+            if s.files.iter().any(|f| f.link_to.is_some()) {
+                local.symlinks += 1;
+            }
+            if s.files.iter().any(|f| f.path.contains("nest/")) {
+                local.prefix_nest += 1;
+            }
             *local.by_equivalence.entry(s.equivalence.clone()).or_insert(0) += 1;
             local.distinct.insert(format!("{:?}|{:?}|{}", s.args, s.files.iter().map(|f| (&f.path, &f.meant)).collect::<Vec<_>>(), s.task_id));
             for (env, rev) in envs_for(seed, i, thorough, has_dir) {
-                *local.dir_modes.entry(format!("{}{}", env.dir_mode, if rev { "+reverse-creation" } else { "" })).or_insert(0) += 1;
+                *local.dir_modes.entry(format!("{}{}{}", env.dir_mode, if rev { "+reverse-creation" } else { "" }, if env.io_fail.is_some() { "+input-fault" } else if env.read_max.is_some() { "+short-reads" } else { "" })).or_insert(0) += 1;
                 let (v, runs) = check_once(&bins, &s, &env, rev, &scratch);
                 local.runs += runs;
                 if let Some((kind, detail)) = v {
@@ -861,6 +1008,8 @@ pub fn main(args: &Args) {
             t.root_arg += local.root_arg;
             t.spelled += local.spelled;
             t.out_rel += local.out_rel;
+            t.symlinks += local.symlinks;
+            t.prefix_nest += local.prefix_nest;
             for (k, v) in local.dir_modes {
                 *t.dir_modes.entry(k).or_insert(0) += v;
             }
@@ -938,7 +1087,7 @@ pub fn main(args: &Args) {
         "coverage": {
             "evaluations": tally.runs,
             "distinct_nontrivial": tally.distinct.len(),
-            "rule": "scenario i is drawn from mix(seed, i): a verify task of the corpus, its files under seeded names (several dots, hidden, fixed-width digits, sometimes upper case) placed explicitly or inside up to three (possibly nested) directories, junk files of other extensions, an optional third .lp, a random argument permutation, a random file-creation order. One evaluation = one run of the shipped binary (verify --no-proof-search --save-problems). Each scenario runs under native, sorted, reverse and shuffled readdir orders and with creation order reversed; every run must produce exactly the problem files of the canonical invocation that passes the model's predicted role files explicitly (or fail when the model finds a required role empty). Distinct non-trivial = distinct (argument list, file layout, task) triples.",
+            "rule": "scenario i is drawn from mix(seed, i): a verify task of the corpus, its files under seeded names (several dots, hidden, fixed-width digits, sometimes upper case) placed explicitly or inside up to three (possibly nested) directories, junk files of other extensions, an optional third .lp, a random argument permutation, a random file-creation order. One evaluation = one run of the shipped binary (verify --no-proof-search --save-problems). Each scenario runs under native, sorted, reverse and shuffled readdir orders and with creation order reversed, once with short reads and EINTR on every input file (must not matter) and two (quick) or five (thorough) times with the k-th open/stat/opendir/read/readdir on an input object failing (anthem may fail, it may not succeed with other problems); every run must produce exactly the problem files of the canonical invocation that passes the model's predicted role files explicitly (or fail when the model finds a required role empty). Distinct non-trivial = distinct (argument list, file layout, task) triples.",
             "samples": tally.samples,
             "scenarios": tally.scenarios,
             "scenarios_with_directory_arguments": tally.with_dirs,
@@ -955,13 +1104,23 @@ pub fn main(args: &Args) {
             "scenarios_by_equivalence": tally.by_equivalence,
             "directory_order_faults_injected_runs": tally.dir_modes,
             "interposer_calls_answered": e2::interposer_totals(),
+            "input_faults": {
+                "runs_with_a_configured_fault": IO_FAULT_RUNS.load(Ordering::Relaxed),
+                "faults_fired": IO_FAULTS_FIRED.load(Ordering::Relaxed),
+                "runs_where_anthem_failed_cleanly": IO_FAULT_FAILED_CLEANLY.load(Ordering::Relaxed),
+                "runs_where_the_fault_was_absorbed_and_output_was_identical": IO_FAULT_SAME_OUTPUT.load(Ordering::Relaxed),
+                "errnos": "EIO, EACCES, ENOENT, EMFILE, ENOMEM, EINTR, ESTALE on the k-th open64/opendir/stat/read/readdir of an object below the scenario root",
+                "benign_short_read_and_eintr_runs": SHORT_READ_RUNS.load(Ordering::Relaxed)
+            },
+            "scenarios_with_symlinks_under_roleless_names": tally.symlinks,
+            "scenarios_with_names_extending_each_other_across_levels": tally.prefix_nest,
             "swap_clause_pairs_compared": tally.swap_checked,
             "left_right_marker_checks": tally.marked_checked,
             "runs_per_hour": (tally.runs as f64 / wall.max(0.001) * 3600.0) as u64,
             "real_vs_stub": {"real": ["the whole anthem binary (release, hooks off): clap, Files::sort, walkdir, task construction, problem emission", "the kernel's file system (scratch directory)"], "interposed (seeded)": ["readdir64 order", "file creation order"], "reference model": ["40-line role assignment (c20::model)"]}
         },
         "assumptions": [
-            "Layouts are restricted to those on which the statement is unambiguous: at most one .spec/.ug/.po, exactly one .lp next to a .spec, no path given twice, no symlinks, no file named exactly '.lp'; inside a directory 'file-name order' is read as byte-wise order of file names per directory level (what the anchored mechanism does).",
+            "Layouts are restricted to those on which the statement is unambiguous: at most one .spec/.ug/.po, exactly one .lp next to a .spec, no file named exactly '.lp'; symbolic links only under names without a role (whatever they point to, the name decides); inside a directory 'file-name order' is read as byte-wise order of file names per directory level (what the anchored mechanism does).",
             "Swap clause: compared for strong equivalence and for external equivalence of two programs without a proof outline, as multisets of (role, formula) per problem with formula names erased, external tasks modulo the private-predicate renaming bijection X <-> X_p."
         ]
     });
